@@ -685,6 +685,9 @@ def spec_c17(tier, seed):
     for cause in range(4):
         parts.append({'cause': cause, 'rounds': 1})
         parts.append({'cause': cause, 'rounds': 1, 'close_raises': True})
+        if cause in (0, 1):
+            parts.append({'cause': cause, 'rounds': 1, 'from_on_close': True})
+            parts.append({'cause': cause, 'rounds': 2, 'from_on_close': True, 'pend': [True, True, 0], 'idle_max': 1100000})
         for p in pends:
             if q and (p[0] != p[1] or (cause == 2 and p[2] == 1)):
                 continue
@@ -694,7 +697,7 @@ def spec_c17(tier, seed):
     return dict(
         conds=[Cond('c17_reconnect', 'c_reconnect', parts=parts, timeout=900)],
         explanation='a real RSocketClient (keep-alive 1 s, lifetime 3 s) with a provider of simulated transports; the connection ends by '
-                    'server EOF / transport error / keep-alive time-out (the server goes silent and the application reconnects from '
+                    'server EOF / transport error (reconnect requested afterwards or from the on_close callback) / keep-alive time-out (the server goes silent and the application reconnects from '
                     'on_keepalive_timeout) / explicit reconnect while healthy, with 0..2 pending requests issued before or right at the '
                     'reconnect request, after SYMBOLIC idle and settle times (keep-alive ticks and time-out checks fall inside); 1..3 '
                     'consecutive reconnects. After each: old transport closed, pending requests failed exactly once, next transport '
